@@ -56,10 +56,11 @@ Proof. vm_compute. auto. Qed.
     kinds true/false/null/arrays; arbitrary whitespace at every legal position, leading
     whitespace [w], arbitrary text [tail] after the closing brace) the reader returns exactly the
     string and number leaves, named by their dotted path of DECODED member names and bound to
-    their DECODED value, in document order — and nothing else. *)
+    their DECODED value, in document order — and nothing else.  [doc_leaves] joins the decoded
+    member names along the path with "." (an empty name contributes an empty segment). *)
 Theorem C20_read_leaf : forall w m wend tail,
   all_ws w = true -> members_ok false m = true -> all_ws wend = true ->
-  read_json (w ++ render (JObj m wend) ++ tail) = ROk (leaves_m [] m).
+  read_json (w ++ render (JObj m wend) ++ tail) = ROk (doc_leaves m).
 Proof. exact read_leaf. Qed.
 Print Assumptions C20_read_leaf.
 
@@ -78,7 +79,7 @@ Example C20_read_leaf_hyp :
      100; 56; 51; 68; 92; 117; 68; 101; 48; 48; 255; 92; 34; 92; 117; 48; 48; 69; 57; 34; 44; 34; 110;
      34; 58; 45; 49; 46; 53; 101; 51; 32; 44; 34; 120; 34; 58; 91; 34; 93; 92; 34; 34; 44; 32; 116;
      114; 117; 101; 93; 44; 34; 34; 58; 110; 117; 108; 108; 13; 125; 125] /\
-  leaves_m [] m = [([97; 10; 46; 65], [240; 159; 152; 128; 255; 34; 195; 169]);
+  doc_leaves m = [([97; 10; 46; 65], [240; 159; 152; 128; 255; 34; 195; 169]);
                    ([97; 10; 46; 110], [45; 49; 46; 53; 101; 51])].
 Proof. vm_compute. auto. Qed.
 
@@ -103,33 +104,47 @@ Theorem C20_emit_valid : forall (fm : bool) (m : flatmap), exists d,
 Proof. exact emit_valid. Qed.
 Print Assumptions C20_emit_valid.
 
-(** Write then read: for every flat map with unique keys none of which begins with "." and
-    with ARBITRARY byte values (quotes, backslashes, control characters, invalid UTF-8), in the
-    compact and in the formatted variant, reading the emitted text succeeds and returns the same
-    map. *)
+(** Write then read: for EVERY flat map with unique keys (what a Go map is) - keys with empty
+    segments (leading ".b", inner "a..c", trailing "a.", the empty key), keys that are prefixes
+    of one another, ARBITRARY byte values (quotes, backslashes, control characters, invalid
+    UTF-8) - in the compact and in the formatted variant, reading the emitted text succeeds and
+    returns the same map.  No other hypothesis remains; uniqueness is only used for the
+    lookup-equivalence (the log is a permutation of the entries in any case). *)
 Theorem C20_write_read : forall (fm : bool) (m : flatmap),
-  nodup_keys m = true -> forallb (fun kv => negb (starts_dot (fst kv))) m = true ->
+  nodup_keys m = true ->
   exists text log, emit fm m = Some text /\ read_json text = ROk log /\
                    Permutation log m /\ flat_equiv log m.
 Proof. exact write_read. Qed.
 Print Assumptions C20_write_read.
 
+(** the log is exactly the entries sorted by key, for every association list *)
+Theorem C20_write_read_sorted : forall (fm : bool) (m : flatmap),
+  exists text, emit fm m = Some text /\ read_json text = ROk (sort_kv m).
+Proof. exact write_read_sorted. Qed.
+Print Assumptions C20_write_read_sorted.
+
 Example C20_write_read_hyp :
-  let m := [([97; 46; 98], [34; 92; 10; 1; 255]); ([97], [9]); ([97; 46; 46; 99], []); ([120; 32; 34], [195; 169])] in
-  nodup_keys m = true /\ forallb (fun kv => negb (starts_dot (fst kv))) m = true /\
-  emit false m = Some [123; 34; 97; 34; 58; 34; 92; 116; 34; 44; 34; 97; 34; 58; 123; 34; 34; 58; 123; 34; 99;
-                       34; 58; 34; 34; 125; 44; 34; 98; 34; 58; 34; 92; 34; 92; 92; 92; 110; 92; 117; 48; 48;
-                       48; 49; 255; 34; 125; 44; 34; 120; 32; 92; 34; 34; 58; 34; 195; 169; 34; 125].
+  let m := [([97; 46; 98], [34; 92; 10; 1; 255]); ([97], [9]); ([97; 46; 46; 99], []); ([120; 32; 34], [195; 169]);
+            ([46; 98], [120]); ([97; 46], [1]); ([], [2])] in
+  nodup_keys m = true /\
+  emit false m = Some [123; 34; 34; 58; 34; 92; 117; 48; 48; 48; 50; 34; 44; 34; 34; 58; 123; 34; 98; 34; 58; 34;
+                       120; 34; 125; 44; 34; 97; 34; 58; 34; 92; 116; 34; 44; 34; 97; 34; 58; 123; 34; 34; 58; 34;
+                       92; 117; 48; 48; 48; 49; 34; 44; 34; 34; 58; 123; 34; 99; 34; 58; 34; 34; 125; 44; 34; 98;
+                       34; 58; 34; 92; 34; 92; 92; 92; 110; 92; 117; 48; 48; 48; 49; 255; 34; 125; 44; 34; 120; 32;
+                       92; 34; 34; 58; 34; 195; 169; 34; 125] /\
+  match emit false m with Some t => read_json t | None => RErr end = ROk (sort_kv m).
 Proof. vm_compute. auto. Qed.
 
-(** FINDING: a key whose first segment is empty does not survive: {".b": "x"} is written as
-    {"":{"b":"x"}} and read back as {"b": "x"} (the reader drops an empty parent name). *)
+(** REGRESSION WITNESS (fixed in goatcore by "fix: JSONToPlainStringMap keeps keys whose first
+    segment is empty"): the reader BEFORE that fix ([read_json_old]) dropped an empty parent name:
+    {".b": "x"} is written as {"":{"b":"x"}} and was read back as {"b": "x"}. *)
 Theorem C20_write_read_leading_dot_refuted :
-  exists m text log, good_flat m = true /\ emit false m = Some text /\ read_json text = ROk log /\
-                     lookup_last [46; 98] log = None /\ lookup_last [46; 98] m = Some [120].
+  exists m text log, good_flat m = true /\ emit false m = Some text /\ read_json_old text = ROk log /\
+                     lookup_last [46; 98] log = None /\ lookup_last [46; 98] m = Some [120] /\
+                     read_json text = ROk m.
 Proof.
   exists [([46; 98], [120])], [123; 34; 34; 58; 123; 34; 98; 34; 58; 34; 120; 34; 125; 125], [([98], [120])].
-  vm_compute. auto 6.
+  vm_compute. auto 8.
 Qed.
 Print Assumptions C20_write_read_leading_dot_refuted.
 
